@@ -5,6 +5,19 @@ import json, subprocess
 LOOPNOTE = 'Trusts: A1 token contract (lower-case tag names, exact serialiser/tokeniser round trip), sanitizeAttrs replaced by an arbitrary-result stub, policy tables of at most 2 entries per kind (an upper bound that is general for one step: one step looks up one name per table), z3 5.1 / cvc5 1.0, go/ssa semantics as interpreted.'
 
 CLAIMED = {
+ "C14": dict(
+   text="Part A: every index, slice, nil-map, nil-dereference, type-assertion and explicit-panic site reached on any path of the token loop (with the inductively proved invariant skipClosingTag <=> non-empty stack), isDataAttribute, removeUnicode (up to 2 escapes per value), the data-URI check closure, sanitizeStyles, validURL and the sandbox filter is a built-in obligation of the symbolic interpreter, discharged by SMT on free inputs. Part B: css.recursiveCheck is executed with opaque predicates and the number of predicate calls on every path is compared with the segmentation-table bound F*n(n+1)/2 for n<=4 (quick) / 5 (thorough) parts; an excess is replayed as a timing measurement of a pumped style value through Policy.Sanitize.",
+   note="Trusts: models of FindStringIndex (sub-range matching the pattern), strconv.Unquote and base64 (uninterpreted); panics and running time inside x/net/html, net/url, regexp, douceur are outside; wall-clock time is not claimed, only the call-count bound up to the stated n.",
+   technique="symbolic execution of go/ssa with built-in safety obligations + SMT; path-wise call counting", design="5 C14"),
+ "C15": dict(
+   text="(1) Sanitize, SanitizeBytes, SanitizeReader, SanitizeReaderToWriter and sanitizeWithBuff are executed symbolically with sanitize(r, w) summarised as an uninterpreted function of the reader content (fails, or writes San(content)); SMT decides that the four results coincide for non-blank input, that blank input is returned as is, and that an error yields an empty result. (2) The loop relation is extracted twice, for a destination with WriteString and for a plain io.Writer (through asStringWriter); SMT decides that from the same state, token and choices the observable step (what is written, return, next state) is the same.",
+   note="Trusts: A1c (token stream independent of reader chunking - a tokenizer property, not encoded); the command-line tools are not encoded (outside the claim); []byte values are immutable views in the engine, so a write into the caller's buffer would surface as an unsupported operation, not as a verdict.",
+   technique="symbolic execution of go/ssa + SMT (uninterpreted summary of sanitize; relational comparison of two extracted step relations)", design="5 C15"),
+ "C17": dict(
+   text="The real builder methods are executed symbolically on free names: (case) each name-taking builder files its rule under lower(name) - decided by SMT with ToLower uninterpreted; (order/accumulation) every pair of rule-adding calls of one kind with free, possibly aliasing element/attribute names is run in both orders on two policies and the rule multisets per key must coincide and keep the first rule; (switches) two consecutive calls with free boolean arguments leave the last value, skip/keep content and scheme registrations follow the most recent call; (independence) two policies from each constructor share no mutable heap object (reachability over the interpreter's heap) and extending one through every builder writes to no object of the other (effect tracking). Counterexamples are replayed by comparing two policies on a probe document.",
+   note="Trusts: rule identity = identity of the *regexp.Regexp value; behavioural equality follows from table equality because sanitising only reads the tables (C13); z3 5.1 / cvc5 1.0; go/ssa semantics as interpreted.",
+   technique="symbolic execution of go/ssa + SMT; heap reachability and effect tracking", design="5 C17"),
+
  "C13": dict(
    text="Reduction decided by symbolic execution + SMT: every path of the real sanitizeAttrs, matchRegex, sanitizeStyles, validURL (unit harnesses of C02/C03/C10/C11/C12 with the policy frozen after construction) and of one iteration of sanitize's token loop (arbitrary state) is checked for stores, map updates, deletes and in-place appends whose target existed before the call (effect tracking in the interpreter's heap; spare slice capacity modelled); a feasible path with such a write is replayed natively by comparing the policy before/after and results against a fresh policy, sequentially and from 8 goroutines. Map-ranging code (matchRegex, style merge, style routing) is executed under every iteration order and must meet an order-independent specification.",
    note="Trusts: regexp and user callbacks reentrant (A4); append growth model; goroutine interleavings are not explored (no write to shared memory on any path implies race freedom under the Go memory model); z3 5.1 / cvc5 1.0; go/ssa semantics as interpreted.",
